@@ -1,4 +1,6 @@
 import DoltVerif.Lemmas.NbsFiles
+import DoltVerif.Lemmas.NbsConjoin
+import DoltVerif.Lemmas.NbsArcFile
 /-!
 C06 — Table files and archives round-trip any chunk set.
 
@@ -82,24 +84,234 @@ theorem sortTuples_sorted : ∀ l, TSorted (sortTuples l)
   | [] => trivial
   | x :: xs => insertTuple_sorted x _ (sortTuples_sorted xs)
 
-/-- statements compared with the implementation by cross-reading but not proved -/
-def table_roundtrip_full : Prop :=
-  ∀ (cs : List Rec) (unc : Nat), (∀ c ∈ cs, c.a.pre < 2 ^ 64 ∧ c.a.suf < 2 ^ 96 ∧ c.len < 2 ^ 32) → cs.length < 2 ^ 32 → unc < 2 ^ 64 →
-    ∀ (before : List UInt8), parseIndex (before ++ writeIndex cs unc) = .ok (build cs unc)
+/-! ## The round-trip theorems (over abstract compression: `dec (cmp d) = d` is a hypothesis) -/
 
-def build_mem_iff_full : Prop :=
-  ∀ (cs : List Rec) (unc : Nat) (a : Addr), Mem (build cs unc) a ↔ a ∈ cs.map (·.a)
+/-- **Index bytes**: parsing what the writer serialises, after arbitrary record bytes, is the identity. -/
+theorem index_parse_serialize (ix : Idx) (hb : Bounded ix) (before : List UInt8) :
+    parseIndex (before ++ serializeIndex ix) = .ok ix := parse_serialize ix hb before
 
-def conjoin_union_full : Prop :=
-  ∀ (srcs : List Idx) (a : Addr), (∀ s ∈ srcs, WF s) → (Mem (conjoin srcs) a ↔ ∃ s ∈ srcs, Mem s a)
+/-- **Table files round-trip any chunk list** the writer accepts — duplicates, prefix collisions,
+any payloads: write → open gives an index of exactly the written chunks; unwritten addresses are
+absent for `has` and `get`; written addresses give back bytes written under them; iteration yields
+the written chunks, all of them and nothing else; footer count / uncompressed size and
+`tableFileSize` are those of the input. -/
+theorem table_roundtrip (c : Codec) (hc : c.Ok) (chunks : List Chunk) (hk : ChunksOk c chunks) :
+    ∃ file ix, writeTable c chunks = some file ∧ parseIndex file = .ok ix ∧
+      IsIndexOf ix (chunks.map (recOf c)) ∧
+      (∀ a, a ∉ chunks.map (·.a) → tableGet c file ix a = .ok none ∧ has ix a = some false) ∧
+      (∀ a, a ∈ chunks.map (·.a) → has ix a = some true ∧
+         ∃ ch ∈ chunks, ch.a = a ∧ tableGet c file ix a = .ok (some ch.data)) ∧
+      (∃ out, tableIterate c file ix = .ok out ∧ out.length = chunks.length ∧
+        (∀ p ∈ out, ∃ ch ∈ chunks, p = (ch.a, ch.data)) ∧ (∀ ch ∈ chunks, (ch.a, ch.data) ∈ out)) ∧
+      ix.count = chunks.length ∧ ix.unc = totalUnc chunks ∧ tableFileSize ix = file.length :=
+  NbsFiles.table_roundtrip c hc chunks hk
 
-def archive_roundtrip_full : Prop :=
-  ∀ (spans : List Nat) (staged : List (Addr × Nat × Nat)) (a : Addr),
-    (findIndex (arcBuild spans staged) a).isSome ∧
-    ((∃ i, findIndex (arcBuild spans staged) a = some (some i)) ↔ a ∈ staged.map (·.1))
+/-- the same reads through **any** index of the chunks — whatever order the Go writer's unstable
+sort left equal prefixes in — so the theorem covers files written by the real writer, not only by
+the model's -/
+theorem table_reads_any_tie_order (c : Codec) (hc : c.Ok) (chunks : List Chunk) (hne : ∀ ch ∈ chunks, ch.data ≠ [])
+    (ix : Idx) (hix : IsIndexOf ix (chunks.map (recOf c))) (tail : Bytes) (a : Addr) :
+    (a ∉ chunks.map (·.a) ∧ tableGet c (recordsOf c chunks ++ tail) ix a = .ok none) ∨
+    (∃ ch ∈ chunks, ch.a = a ∧ tableGet c (recordsOf c chunks ++ tail) ix a = .ok (some ch.data)) :=
+  tableGet_of_index c hc chunks hne ix hix tail a
+
+/-- with distinct addresses the bytes returned are *the* bytes written under the address -/
+theorem table_roundtrip_exact (c : Codec) (hc : c.Ok) (chunks : List Chunk) (hne : ∀ ch ∈ chunks, ch.data ≠ [])
+    (hnd : (chunks.map (·.a)).Nodup) (ix : Idx) (hix : IsIndexOf ix (chunks.map (recOf c))) (tail : Bytes)
+    (ch : Chunk) (hch : ch ∈ chunks) :
+    tableGet c (recordsOf c chunks ++ tail) ix ch.a = .ok (some ch.data) := by
+  rcases tableGet_of_index c hc chunks hne ix hix tail ch.a with ⟨hn, _⟩ | ⟨ch', hch', ha, hg⟩
+  · exact absurd (List.mem_map.mpr ⟨ch, hch, rfl⟩) hn
+  · rw [nodup_map_inj (·.a) chunks hnd ch' hch' ch hch ha] at hg; exact hg
+
+/-- **Conjoin = union** (see `NbsFiles.conjoin_union`): the conjoined index indexes the concatenation
+of the sources' chunk lists; absent everywhere ⇒ absent; present in some source ⇒ bytes held by a
+source under that address; count = Σ counts; iteration covers every chunk of every source. -/
+theorem conjoin_union (c : Codec) (hc : c.Ok) (ixs : List Idx) (css : List (List Chunk))
+    (hix : All2 (fun ix chunks => IsIndexOf ix (chunks.map (recOf c))) ixs css)
+    (hne : ∀ chunks ∈ css, ∀ ch ∈ chunks, ch.data ≠ []) (tail : Bytes) :
+    IsIndexOf (conjoin ixs) (css.flatten.map (recOf c)) ∧
+    (conjoin ixs).count = (css.map List.length).foldl (· + ·) 0 ∧
+    (∀ a, (∀ chunks ∈ css, a ∉ chunks.map (·.a)) →
+        tableGet c (css.flatMap (recordsOf c) ++ tail) (conjoin ixs) a = .ok none) ∧
+    (∀ a, ∀ chunks ∈ css, a ∈ chunks.map (·.a) →
+        ∃ chunks' ∈ css, ∃ ch ∈ chunks', ch.a = a ∧
+          tableGet c (css.flatMap (recordsOf c) ++ tail) (conjoin ixs) a = .ok (some ch.data)) ∧
+    (∃ out, tableIterate c (css.flatMap (recordsOf c) ++ tail) (conjoin ixs) = .ok out ∧
+        out.length = css.flatten.length ∧ ∀ chunks ∈ css, ∀ ch ∈ chunks, (ch.a, ch.data) ∈ out) :=
+  NbsFiles.conjoin_union c hc ixs css hix hne tail
+
+/-- **Archives round-trip any chunk set with distinct addresses**, snappy spans and zstd payloads with
+any number of dictionaries mixed: write → open (footer + index parse) → `get` gives back every chunk,
+reports every other address absent; footer counts are those of the input. -/
+theorem archive_roundtrip (c : Codec) (hc : c.Ok) (z : ZCodec) (hz : z.Ok) (dicts : List Bytes) (items : List AItem)
+    (metadata : Bytes) (hk : AItemsOk c z dicts items metadata) :
+    ∃ file f ar, arcWrite c z dicts items metadata = .ok file ∧ arcOpen file = .ok (f, some ar) ∧
+      f.chunkCount = items.length ∧ f.byteSpanCount = dicts.length + items.length ∧
+      (∀ a, a ∉ items.map (·.a) → arcGet c z file ar a = .ok none) ∧
+      (∀ it ∈ items, arcGet c z file ar it.a = .ok (some it.data)) :=
+  NbsFiles.archive_roundtrip c hc z hz dicts items metadata hk
+
+/-- duplicate addresses are rejected by the archive writer -/
+theorem archive_rejects_duplicates (c : Codec) (z : ZCodec) (dicts : List Bytes) (items : List AItem) (metadata : Bytes)
+    (h : ¬ (items.map (·.a)).Nodup) : ∀ file, arcWrite c z dicts items metadata ≠ .ok file :=
+  NbsFiles.archive_rejects_duplicates c z dicts items metadata h
+
+/-- `findIndex` on a written archive index: found iff staged, for every prefix distribution
+(`prollyBinSearch` needs no density assumption) -/
+theorem archive_findIndex (spans : List Nat) (staged : List (Addr × Nat × Nat)) (hn : staged.length < 18446744073709551616)
+    (a : Addr) :
+    (∃ k d x, findIndex (arcBuild spans staged) a = some (some k) ∧ (a, d, x) ∈ staged ∧
+        (arcBuild spans staged).refs[k]? = some (d, x)) ∨
+    (findIndex (arcBuild spans staged) a = some none ∧ ∀ d x, (a, d, x) ∉ staged) :=
+  arcBuild_findIndex spans staged hn a
+
+/-- **Table → archive conversion preserves the chunk set**, with any assignment of chunks to
+dictionaries (`dsel`; `none` = keep the snappy record): every address reads the same through the
+archive as through the table file, and the counts agree. -/
+theorem toArchive_preserves (c : Codec) (hc : c.Ok) (z : ZCodec) (hz : z.Ok) (chunks : List Chunk)
+    (hk : ChunksOk c chunks) (dicts : List Bytes) (dsel : Chunk → Option Nat) (metadata : Bytes)
+    (hka : AItemsOk c z dicts (chunks.map (fun ch => ⟨ch.a, dsel ch, ch.data⟩)) metadata) :
+    ∃ tfile ix afile f ar, writeTable c chunks = some tfile ∧ parseIndex tfile = .ok ix ∧
+      arcWrite c z dicts (chunks.map (fun ch => ⟨ch.a, dsel ch, ch.data⟩)) metadata = .ok afile ∧
+      arcOpen afile = .ok (f, some ar) ∧ f.chunkCount = ix.count ∧
+      ∀ a, arcGet c z afile ar a = tableGet c tfile ix a := by
+  obtain ⟨tfile, ix, h1, h2, _, habs, hpres, _, hcnt, _, _⟩ := NbsFiles.table_roundtrip c hc chunks hk
+  obtain ⟨afile, f, ar, g1, g2, g3, _, gabs, gpres⟩ := NbsFiles.archive_roundtrip c hc z hz dicts _ metadata hka
+  have hmap : (chunks.map (fun ch => (⟨ch.a, dsel ch, ch.data⟩ : AItem))).map (·.a) = chunks.map (·.a) := by
+    simp [List.map_map, Function.comp_def]
+  have hnd : (chunks.map (·.a)).Nodup := hmap ▸ hka.nodup
+  refine ⟨tfile, ix, afile, f, ar, h1, h2, g1, g2, by rw [g3, hcnt]; simp, ?_⟩
+  intro a
+  by_cases ha : a ∈ chunks.map (·.a)
+  · obtain ⟨_, ch, hch, hca, hg⟩ := hpres a ha
+    have := gpres ⟨ch.a, dsel ch, ch.data⟩ (List.mem_map.mpr ⟨ch, hch, rfl⟩)
+    simp only at this
+    rw [hg, ← hca, this]
+  · rw [(habs a ha).1, gabs a (by rw [hmap]; exact ha)]
+
+/-! ### memtable: later duplicate writes are dropped -/
+
+/-- `memTable.addChunk`: `chunkExists` leaves the table unchanged -/
+def memAdd (mt : List Chunk) (ch : Chunk) : List Chunk := if mt.any (fun x => x.a == ch.a) then mt else mt ++ [ch]
+
+/-- the chunks a memtable holds (insertion order) after a sequence of `addChunk` calls -/
+def memTableOf (chunks : List Chunk) : List Chunk := chunks.foldl memAdd []
+
+theorem memAdd_inv (mt : List Chunk) (ch : Chunk) (h : (mt.map (·.a)).Nodup) :
+    ((memAdd mt ch).map (·.a)).Nodup ∧ (∀ a, a ∈ (memAdd mt ch).map (·.a) ↔ a ∈ mt.map (·.a) ∨ a = ch.a) ∧
+    (∀ x ∈ memAdd mt ch, x ∈ mt ∨ x = ch) := by
+  unfold memAdd
+  by_cases hany : mt.any (fun x => x.a == ch.a) = true
+  · simp only [hany, if_true]
+    obtain ⟨x, hx, he⟩ := List.any_eq_true.mp hany
+    have hxa : x.a = ch.a := by simpa using he
+    refine ⟨h, fun a => ⟨Or.inl, ?_⟩, fun x hx => Or.inl hx⟩
+    rintro (h1 | rfl)
+    · exact h1
+    · exact List.mem_map.mpr ⟨x, hx, hxa⟩
+  · simp only [hany, Bool.false_eq_true, if_false]
+    have hnot : ch.a ∉ mt.map (·.a) := by
+      intro hm
+      obtain ⟨x, hx, he⟩ := List.mem_map.mp hm
+      exact hany (List.any_eq_true.mpr ⟨x, hx, by simp [he]⟩)
+    refine ⟨?_, ?_, ?_⟩
+    · rw [List.map_append, List.nodup_append]
+      refine ⟨h, by simp, ?_⟩
+      intro a ha b hb
+      simp at hb; subst hb
+      intro e; subst e; exact hnot ha
+    · intro a; simp [List.map_append]
+    · intro x hx
+      rcases List.mem_append.mp hx with h1 | h1
+      · exact Or.inl h1
+      · right; simpa using h1
+
+/-- a memtable never holds an address twice, holds every address that was added, and only chunks
+that were added: so the table file it writes has `count` = number of *distinct* addresses and
+`table_roundtrip_exact` applies to it. -/
+theorem memtable_dedup (chunks : List Chunk) :
+    ((memTableOf chunks).map (·.a)).Nodup ∧ (∀ a, a ∈ (memTableOf chunks).map (·.a) ↔ a ∈ chunks.map (·.a)) ∧
+    (∀ x ∈ memTableOf chunks, x ∈ chunks) := by
+  have key : ∀ (cs mt : List Chunk), (mt.map (·.a)).Nodup →
+      ((cs.foldl memAdd mt).map (·.a)).Nodup ∧
+      (∀ a, a ∈ (cs.foldl memAdd mt).map (·.a) ↔ a ∈ mt.map (·.a) ∨ a ∈ cs.map (·.a)) ∧
+      (∀ x ∈ cs.foldl memAdd mt, x ∈ mt ∨ x ∈ cs) := by
+    intro cs
+    induction cs with
+    | nil => intro mt h; exact ⟨h, by simp, fun x hx => Or.inl hx⟩
+    | cons ch rest ih =>
+      intro mt h
+      obtain ⟨h1, h2, h3⟩ := memAdd_inv mt ch h
+      obtain ⟨i1, i2, i3⟩ := ih (memAdd mt ch) h1
+      refine ⟨i1, ?_, ?_⟩
+      · intro a
+        rw [List.foldl_cons, i2 a, h2 a]
+        simp only [List.map_cons, List.mem_cons]
+        constructor
+        · rintro ((h | h) | h)
+          · exact Or.inl h
+          · exact Or.inr (Or.inl h)
+          · exact Or.inr (Or.inr h)
+        · rintro (h | h | h)
+          · exact Or.inl (Or.inl h)
+          · exact Or.inl (Or.inr h)
+          · exact Or.inr h
+      · intro x hx
+        rcases i3 x hx with h | h
+        · rcases h3 x h with h | h
+          · exact Or.inl h
+          · exact Or.inr (h ▸ List.mem_cons_self ..)
+        · exact Or.inr (List.mem_cons_of_mem _ h)
+  obtain ⟨k1, k2, k3⟩ := key chunks [] (by simp)
+  refine ⟨k1, fun a => by simpa [memTableOf] using k2 a, fun x hx => ?_⟩
+  rcases k3 x (by simpa [memTableOf] using hx) with h | h
+  · simp at h
+  · exact h
+
+/-! ### Non-vacuity: the hypotheses are satisfiable -/
+
+/-- an (admittedly poor) codec satisfying `Codec.Ok`: store verbatim, constant checksum -/
+def idCodec : Codec := ⟨id, some, fun _ => 7⟩
+def idZ : ZCodec := ⟨fun r d => r.length.toUInt8 :: d, fun _ b => b.tail?, fun r => 1 :: r, fun b => b.tail?⟩
+
+example : idCodec.Ok := ⟨fun _ => rfl, fun _ h => h, fun _ => by simp [idCodec, checksumSize]⟩
+example : idZ.Ok := ⟨fun _ _ => rfl, fun _ => rfl⟩
+
+/-- two chunks sharing the 8-byte prefix, one of them written twice -/
+def exChunks : List Chunk := [⟨⟨5, 1⟩, [1]⟩, ⟨⟨5, 2⟩, [2, 3]⟩, ⟨⟨5, 1⟩, [1]⟩]
+
+example : ChunksOk idCodec exChunks := by
+  refine ⟨?_, ?_, ?_, ?_, by decide, by decide⟩ <;>
+    (intro ch hch
+     simp only [exChunks, List.mem_cons, List.mem_nil_iff, or_false] at hch
+     rcases hch with rfl | rfl | rfl <;> decide)
+
+def exItems : List AItem := [⟨⟨5, 1⟩, none, [1]⟩, ⟨⟨5, 2⟩, some 0, [2, 3]⟩]
+
+example : AItemsOk idCodec idZ [[9, 9]] exItems [0x7b, 0x7d] := by
+  refine ⟨by decide, ?_, ?_, ?_, by decide, by decide, by decide, fun _ _ => by simp [idZ], fun _ => by simp [idZ]⟩ <;>
+    (intro it hit
+     simp only [exItems, List.mem_cons, List.mem_nil_iff, or_false] at hit
+     rcases hit with rfl | rfl <;> first | decide | simp)
+
+def getOk (r : Except ReadErr (Option Bytes)) (want : Option Bytes) : Bool :=
+  match r with | .ok v => v == want | .error _ => false
+
+#guard (writeTable idCodec exChunks).isSome
+#guard match writeTable idCodec exChunks with
+  | some f => (match parseIndex f with
+      | .ok ix => getOk (tableGet idCodec f ix ⟨5, 2⟩) (some [2, 3]) && getOk (tableGet idCodec f ix ⟨5, 3⟩) none
+      | _ => false)
+  | none => false
+#guard match arcWrite idCodec idZ [[9, 9]] exItems [0x7b, 0x7d] with
+  | .ok f => (match arcOpen f with
+      | .ok (_, some ar) => getOk (arcGet idCodec idZ f ar ⟨5, 2⟩) (some [2, 3]) && getOk (arcGet idCodec idZ f ar ⟨5, 1⟩) (some [1])
+          && getOk (arcGet idCodec idZ f ar ⟨6, 1⟩) none
+      | _ => false)
+  | .error _ => false
 
 example : (build [⟨⟨5, 1⟩, 10⟩, ⟨⟨3, 2⟩, 7⟩, ⟨⟨5, 0⟩, 9⟩] 0).count = 3 := table_count _ _
 #guard (build [⟨⟨5, 1⟩, 10⟩, ⟨⟨3, 2⟩, 7⟩, ⟨⟨5, 0⟩, 9⟩] 0).pfx == #[3, 5, 5]
-#guard parseIndex (writeIndex [⟨⟨5, 1⟩, 10⟩, ⟨⟨3, 2⟩, 7⟩, ⟨⟨5, 0⟩, 9⟩] 44) matches .ok _
 
 end DoltVerif.C06
